@@ -154,10 +154,10 @@ def audit(pid: str) -> dict:
 
 
 TIE_THEOREM = {"Secs": "secs_tie", "NoteDur": "noteDur_tie", "BpmDecode": "bpmDecode_tie", "BpmValid": "bpmValid_tie",
-               "Nps": "nps_tie", "Anchor": "anchor_tie"}
+               "Nps": "nps_tie", "Anchor": "anchor_tie", "Hopo": "hopo_tie"}
 
 
-def leaf_ties(prop, st) -> dict:
+def leaf_ties(prop, st, tier="quick") -> dict:
     """For each arithmetic leaf function the property's model relies on: is `eval(AST dumped from /repo) = hand model` still a
     theorem (lake build of Tie/<X>.lean, axioms audited)? A tie that cannot be established is not a verdict about the code —
     the correspondence check remains the tie — but it makes this run explore four times deeper."""
@@ -193,6 +193,11 @@ def leaf_ties(prop, st) -> dict:
         ax = [] if (not m or m.group(2) is None) else [a.strip() for a in m.group(2).split(",") if a.strip()]
         clean = bool(m) and all(a in ALLOWED_AXIOMS for a in ax) and not FORBIDDEN.search(src)
         res[X] = {"proved": clean, "theorem": name, "axioms": ax} if clean else {"proved": False, "why": f"axiom audit of {name} failed: {flat[-200:]}"}
+        if clean and tier == "thorough":
+            rc, cout = sh(["lake", "env", "leanchecker", f"Chartparse.Tie.{X}"], cwd=LEAN, timeout=3600)
+            res[X]["leanchecker"] = rc == 0
+            if rc != 0:
+                res[X] = {"proved": False, "why": "leanchecker rejected the module: " + cout[-200:]}
     return res
 
 
@@ -251,7 +256,7 @@ def run(pid: str, tier: str, seed: int) -> int:
             if not aud["ok"]:
                 # forbidden tokens / extra axioms are defects of the proof base, not of the code under test
                 infra += aud["problems"]
-        ties = leaf_ties(prop, st) if ok else {}
+        ties = leaf_ties(prop, st, tier) if ok else {}
         ctx.intensify = any(not v["proved"] for v in ties.values())
         chk = None
         if ok and tier == "thorough":
@@ -265,6 +270,9 @@ def run(pid: str, tier: str, seed: int) -> int:
     # ---- correspondence slice (corpus first inside each slice)
     out = None
     try:
+        if pid != "C20" and not os.environ.get("VERIF_NO_PAST"):
+            from verif import impl
+            impl.pollute(seed)  # every slice runs in a process with a past (see impl.pollute); C20 uses fresh interpreters throughout
         out = prop.slice(ctx)
         if getattr(prop, "LEAVES", None) and driver_ok:
             from verif import leaf
@@ -338,7 +346,10 @@ def run(pid: str, tier: str, seed: int) -> int:
     if new_viol:
         for v in new_viol[:3]:
             path = fw.write_replay(pid, "input", {"what": v["what"], "observed": v["observed"], "promised": v["promised"],
-                                                   "replay": v["replay"], "how": f"./check {pid} --replay <this file>"})
+                                                   "replay": v["replay"], "how": f"./check {pid} --replay <this file>",
+                                                   "past_seed": None if pid == "C20" else seed,
+                                                   "past": "the slice ran after verif.impl.pollute(past_seed): other charts parsed and queried in the "
+                                                           "same interpreter; the replay re-creates that past first"})
             print(f"{pid}: {v['what']}")
             print(f"VIOLATION property={pid} replay={path}")
         return 1
@@ -369,6 +380,13 @@ def replay(pid: str, path: str) -> int:
     if data.get("kind") == "unproved":
         print("this replay names proof obligations / correspondences, not an input:", data.get("no_longer_checks"))
         return run(pid, "quick", 0)
+    if data.get("past_seed") is not None and not os.environ.get("VERIF_NO_PAST"):
+        from verif import impl
+        try:
+            import chartparse.chart  # noqa: F401
+        except Exception:  # noqa: BLE001
+            pass
+        impl.pollute(data["past_seed"])
     still, obs = prop.replay(ctx, data["replay"])
     print(json.dumps({"still_fails": still, "observed": obs, "promised": data.get("promised")}, default=str, ensure_ascii=False)[:2000])
     if still:
